@@ -157,6 +157,7 @@ type Sim struct {
 	yieldCnt      uint64
 	blockedRounds int
 	syncYields    uint64
+	hooksSkipped  uint64
 	mainB         baton
 	wg            sync.WaitGroup
 }
@@ -277,9 +278,7 @@ func slowY(site uint32) {
 		s.yieldCnt++
 		if s.yieldCnt >= s.cfg.YieldEvery {
 			s.yieldCnt = 0
-			s.inHook = true
-			s.cfg.OnYield(t.id)
-			s.inHook = false
+			s.hookYield(t.id)
 		}
 	}
 	if s.cfg.Policy.Kind == PStarve && !s.stalled && t.id == s.cfg.Policy.Victim && t.steps >= s.cfg.Policy.VictimAt {
@@ -361,15 +360,17 @@ func (s *Sim) pick(excludeCur bool) int {
 }
 
 //go:norace
+func eligible(t *task, allowBlocked bool) bool {
+	return t.state == stRunnable && (allowBlocked || !t.blocked)
+}
+
+//go:norace
 func (s *Sim) pickFrom(excludeCur, allowBlocked bool) int {
 	cur := s.tasks[s.cur]
-	ok := func(t *task) bool {
-		return t.state == stRunnable && (allowBlocked || !t.blocked)
-	}
 	if s.cfg.Policy.Kind == PPCT {
 		best := -1
 		for _, t := range s.tasks {
-			if !ok(t) || (excludeCur && t.id == s.cur) {
+			if !eligible(t, allowBlocked) || (excludeCur && t.id == s.cur) {
 				continue
 			}
 			if best < 0 || t.prio > s.tasks[best].prio {
@@ -380,12 +381,12 @@ func (s *Sim) pickFrom(excludeCur, allowBlocked bool) int {
 	}
 	var cands [64]int
 	nc := 0
-	if !excludeCur && ok(cur) {
+	if !excludeCur && eligible(cur, allowBlocked) {
 		cands[nc] = cur.id
 		nc++
 	}
 	for _, t := range s.tasks {
-		if t.id != s.cur && ok(t) && nc < len(cands) {
+		if t.id != s.cur && eligible(t, allowBlocked) && nc < len(cands) {
 			cands[nc] = t.id
 			nc++
 		}
@@ -402,9 +403,7 @@ func (s *Sim) pickFrom(excludeCur, allowBlocked bool) int {
 //go:norace
 func (s *Sim) switchTo(next int, site uint32) {
 	if s.cfg.OnSwitch != nil {
-		s.inHook = true
-		s.cfg.OnSwitch(s.cur, next)
-		s.inHook = false
+		s.hookSwitch(s.cur, next)
 	}
 	s.switches++
 	if site != 0 {
@@ -427,9 +426,7 @@ func (s *Sim) finish(t *task) {
 	t.state = stDone
 	s.live--
 	if s.cfg.OnSwitch != nil {
-		s.inHook = true
-		s.cfg.OnSwitch(t.id, -1)
-		s.inHook = false
+		s.hookSwitch(t.id, -1)
 	}
 	if s.live == 0 {
 		s.mainB.wake()
@@ -617,11 +614,55 @@ func TaskSteps() uint64 {
 func Lock(try func() bool) {
 	spun := false
 	for !try() {
+		if inHook() {
+			// an invariant hook reached library code that needs a lock held by a
+			// parked task: the object is in the middle of an update by that task and
+			// cannot be inspected now. The hook evaluation is abandoned (runHook
+			// recovers this), never a task switch from inside a hook.
+			panic(hookBlocked{})
+		}
 		spun = true
 		yieldBlocked()
 	}
 	if spun {
 		unblock()
+	}
+}
+
+type hookBlocked struct{}
+
+//go:norace
+func inHook() bool {
+	s := sim
+	return s != nil && s.inHook
+}
+
+// Invariant hooks run with yield points disabled; a hook that runs into a held
+// library lock is abandoned. No closures here: a func literal inside a
+// //go:norace function is a separate, instrumented function.
+//
+//go:norace
+func (s *Sim) hookSwitch(from, to int) {
+	s.inHook = true
+	defer s.endHook()
+	s.cfg.OnSwitch(from, to)
+}
+
+//go:norace
+func (s *Sim) hookYield(task int) {
+	s.inHook = true
+	defer s.endHook()
+	s.cfg.OnYield(task)
+}
+
+//go:norace
+func (s *Sim) endHook() {
+	s.inHook = false
+	if r := recover(); r != nil {
+		if _, ok := r.(hookBlocked); !ok {
+			panic(r)
+		}
+		s.hooksSkipped++
 	}
 }
 
